@@ -145,7 +145,15 @@ class World:
             cat = struct_category(spec["dtype"]) if spec["dtype"].startswith("Struct") else getattr(jaxtyping, spec["dtype"])
             at = spec["atype"]
             base = self.ann(at[1:]) if at.startswith("@") else ATYPES[at]
-            out = cat[base, spec["dims"]]
+            if spec.get("split") is not None:
+                # the documented alternative spelling: Outer[Inner[T, "h w"], "3"] means (Outer and Inner)["3 h w"]; the spec (and
+                # hence the model) describes the flat equivalent, the object under test is built in the nested form
+                k, outer_kind = spec["split"]
+                toks = spec["dims"].split(" ") if spec["dims"] else []
+                inner = cat[base, " ".join(toks[k:])]
+                out = (jaxtyping.Shaped if outer_kind == "shaped" else cat)[inner, " ".join(toks[:k])]
+            else:
+                out = cat[base, spec["dims"]]
         elif k == "tree":
             leaf = self.typ(spec["leaf"])
             out = PyTree[leaf] if spec.get("struct") is None else PyTree[leaf, spec["struct"]]
